@@ -13,7 +13,7 @@ def leg(test, module="rt", quick=(1000, 1), thorough=(10000, 16), race=False, ti
                 timeout_s=timeout_s, env=env or {}, fixed=fixed)
 
 HOOK_COMMITS = ["dd392ad"]
-FIX_COMMITS = ["e449346", "ba22cb7", "3039ef0", "273eefb", "cca5970", "2577b44", "d6810d1", "e1987c3"]
+FIX_COMMITS = ["e449346", "ba22cb7", "3039ef0", "273eefb", "cca5970", "2577b44", "d6810d1", "e1987c3", "b1932c7", "c49aa17", "d9e8025", "42ec2de"]
 
 ALL_PROPS = ["C%02d" % i for i in range(1, 21)]
 
@@ -203,6 +203,33 @@ CHECKS = {
                     "STOMP SUBSCRIBE is unacknowledged, the harness waits for a sentinel message before publishing."),
         assumptions=["healthy broker connection", "publisher and malformed injections share one connection so the interleaving is the broker's order"],
         design_ref="DESIGN.md §2 C07",
+    ),
+    "C10": dict(
+        title="The parser represents every declaration exactly and accepts all Thrift",
+        legs=[leg("TestC10RoundTrip", module="idl", quick=(1500, 4), thorough=(40000, 16), timeout_s=3000, prefixes=["c10."])],
+        level="exploration",
+        technique="property-based testing (rapid): generated IDL models rendered with generated lexical variation, parsed by the real parser and compared field by field with the model (round trip)",
+        rule=("Valid multi-file IDL models (includes, namespaces, typedefs, enums with explicit/implicit values, constants incl. lists/maps, structs/unions/exceptions with ids, requiredness, defaults, annotations, docstrings, "
+              "services with extends/oneway/args/throws, scopes with prefixes and variables) rendered with drawn lexical choices: //, #, /* */ and /**@ */ comments in every whitespace position, ',' ';' or no separators, "
+              "';' / newline / EOF statement ends, ' and \" literals, whitespace inside container types, identifier shapes (snake, SCREAMING, initialisms, digits). "
+              "Non-trivial: >=3 declaration kinds and (>=2 comment kinds or a non-default separator). Distinct: sha256 of the rendered text."),
+        level_text=("Exploration: parse(render(model)) must equal the model for every file of the program (includes, namespaces, typedefs, enums with Thrift numbering, constants, struct-likes with field ids / requiredness / types / defaults / annotations / docstrings, "
+                    "services, scopes sorted by name, prefix string and variables), independent of the lexical draw; the parser must never reject, panic or hang on a generated program."),
+        level_note="Trusted: the generator's validity rules and the renderer (they encode what well-formed Thrift/Frugal is); constructs behind confirmed parser defects are excluded by construction (hazard tags, counted) and replayed as known findings.",
+        assumptions=["IDL outside the model (senum, hex literals, fields without ids, cpp_include) is not generated"],
+        design_ref="DESIGN.md §2 C10",
+    ),
+    "C11": dict(
+        title="The compiler is total: valid IDL yields valid code, bad input a diagnostic",
+        legs=[leg("TestC11Valid", module="idl", quick=(250, 4), thorough=(5000, 16), timeout_s=3000, prefixes=["c11."])],
+        level="exploration",
+        technique="property-based testing (rapid) over generated valid programs x targets x options with per-target well-formedness oracles (go/parser + go/types, javac parser, CPython ast, JSON, HTML, Dart lexical balance); mutation-based and native fuzzing for invalid input",
+        rule=("Valid programs (as C10) x 1..5 of 28 target/option combinations (go, java, dart, py, py:asyncio, py:tornado, json, html and their options) x -delim x -r. "
+              "Non-trivial: a program with a service or scope and (>=2 files or an option set). Distinct: sha256 of (text, targets, delim, recurse)."),
+        level_text=("Exploration: in-process Compile must return nil without panicking for every target; every emitted file must be well-formed for its target. Invalid inputs (mutants, semantic violations) must make the CLI exit non-zero with a message and no Go runtime trace, promptly."),
+        level_note="Trusted: go/parser, go/types, javac's parser, CPython's parser. Java/Dart/Python output is checked syntactically only (no Thrift/Frugal jars, Dart SDK or thrift Python package offline).",
+        assumptions=["constructs behind confirmed generator defects are excluded by hazard tags and replayed as known findings"],
+        design_ref="DESIGN.md §2 C11",
     ),
 }
 
